@@ -16,6 +16,7 @@ import (
 	"sync/atomic"
 	"testing/iotest"
 	"text/template"
+	"time"
 
 	"cvssmc/internal/ev"
 	"cvssmc/internal/lib"
@@ -65,6 +66,14 @@ var tmplPrograms = []string{
 	`<table>{{range $k, $v := .Version}}<tr><td>{{$k}}</td><td title="{{$v}}">{{$v}}</td></tr>{{end}}</table><a href="?v={{.Vector}}&s={{.BaseScore}}">{{.SeverityName}}</a>`,
 	`<script>var r = {"vector": "{{.Vector}}", "score": {{.BaseScore}}, "sev": '{{.SeverityValue}}'};</script><style>p { content: "{{.Version}}" }</style>`,
 	`| {{.AVName}} | {{.AVValue}} |\n|---|---|\n{{/* markdown */}}**{{.SeverityName}}**: _{{.SeverityValue}}_ ({{.BaseScore}})`,
+	// method calls on the report: an export nested in an export (round 6, C19-A-r6: a lock held
+	// across template execution), with valid, failing and recursive inner templates
+	"{{.ExportWithString \"inner {{.Vector}}\"}}",
+	"{{with .ExportWithString \"S={{.BaseScore}}\"}}[{{.}}]{{end}} {{.Version}}",
+	"{{.ExportWithString \"{{\"}}", "{{.ExportWithString \"{{.Nope}}\"}}tail",
+	"{{.ExportWithString (printf \"%s {{.Version}}\" .Vector)}}",
+	"{{.ExportWithString \"a{{.ExportWithString \\\"b{{.Version}}\\\"}}c\"}}",
+	"{{.ExportWith nil}}", "{{.ExportWithString}}", "{{.ExportWithString 1}}",
 }
 
 type exporter interface {
@@ -123,6 +132,8 @@ func isNilReader(r io.Reader) bool {
 	return lib.IsNil(r)
 }
 
+var exportHung int32
+
 type tmplStats struct {
 	n, okRef, parseFail, execFail int64
 }
@@ -142,7 +153,10 @@ func checkExport(r *ev.Run, st *tmplStats, tg tmplTarget, text string, via strin
 	cs := map[string]any{"report": tg.name, "template": text, "via": via}
 	var rd io.Reader
 	var err error
-	pan := func() (p string) {
+	if atomic.LoadInt32(&exportHung) != 0 {
+		return // an earlier export never returned: whatever it holds is held for good
+	}
+	run := func() (p string) {
 		defer func() {
 			if x := recover(); x != nil {
 				p = fmt.Sprint(x)
@@ -150,7 +164,25 @@ func checkExport(r *ev.Run, st *tmplStats, tg tmplTarget, text string, via strin
 		}()
 		rd, err = call()
 		return ""
-	}()
+	}
+	pan := ""
+	if strings.Contains(text, "Export") {
+		// a template that calls an export method of the report it is executed over re-enters the
+		// export path on the same goroutine; text/template renders it, so the library must too.
+		// A call that has not returned after five minutes (it takes microseconds) never will.
+		done := make(chan string, 1)
+		go func() { done <- run() }()
+		select {
+		case pan = <-done:
+		case <-time.After(5 * time.Minute):
+			atomic.StoreInt32(&exportHung, 1)
+			r.Violate(ev.Violation{Kind: "export-does-not-return", Case: cs, Observed: "the export call had not returned after 5 minutes (a lock that is not re-entrant, held across template execution?)", Expected: fmt.Sprintf("%q (what text/template renders for the same template over the same report)", want),
+				GoTest: fmt.Sprintf("r, err := rep.ExportWithString(%q) // rep: %s report; never returns", text, tg.name)})
+			return
+		}
+	} else {
+		pan = run()
+	}
 	if pan != "" {
 		r.Violate(ev.Violation{Kind: "export-panics", Case: cs, Observed: pan, Expected: "an error or a reader"})
 		return
